@@ -266,6 +266,21 @@ def inject(text, anns, ops=None):
                 mt = toks[mdefs[0][0]]
                 inserts.append((mt[2], ('__RENAME__', len(op[3]), old)))
             report['ops'].append('definition of %s renamed to %s (a model in /verif/models takes its place)' % (old, new))
+        elif op[0] == 'deunion':
+            # CBMC 6.11 evaluates `p->u.<m>-><f>` to an unconstrained value when <m> is a pointer member (not the first)
+            # of a union of pointers (minimal reproduction in DESIGN.md 10.2).  Mechanical, semantics-preserving rewrite
+            # of `ID->u.<m>->` into `({ __typeof__ (ID->u.<m>) vp_u = ID->u.<m>; vp_u; })->` for the listed members.
+            members = op[1]
+            pat = re.compile(r'(?<![.>\w])([A-Za-z_]\w*)->u\.(%s)->' % '|'.join(members))
+            n = 0
+            for m in pat.finditer(text):
+                inserts.append((m.start(), ('__RENAME__', m.end() - m.start(),
+                                            '({ __typeof__ (%s->u.%s) vp_u = %s->u.%s; vp_u; })->' % (m.group(1), m.group(2), m.group(1), m.group(2)))))
+                n += 1
+            if n == 0:
+                raise StageError('deunion: pattern never matched')
+            report['ops'].append('%d occurrences of ID->u.{%s}-> rewritten through a temporary (work-around for a CBMC union dereference defect)'
+                                 % (n, ','.join(members)))
         elif op[0] == 'slice_cond':
             # ('slice_cond', function, regex locating 'if (' of the condition inside the function, prototype):
             # the parenthesised condition is copied into a new function appended to the TU
